@@ -160,6 +160,7 @@ struct slice
 channel_read_map(struct channel* self, struct channel_reader* reader)
 {
     size_t nbytes = 0;
+    int hold_moved = 0;
     lock_acquire(&self->lock);
 
     reader_initialize(self, reader);
@@ -192,18 +193,31 @@ channel_read_map(struct channel* self, struct channel_reader* reader)
     }
 
     if (!nbytes) {
-        // If nothing is available to read, we still need to advance this
+        // If nothing is left to read in the previous lap, advance this
         // reader's position & cycle bookmarks to the beginning of the queue and
-        // the writer's cycle, respectively.
-        out = 0;
+        // the writer's cycle, respectively, and map what has been committed
+        // in the current lap. (Returning an empty slice here would look like
+        // "drained" to callers that stop at the first empty read.)
         *pos = 0;
         *cycle = self->cycle;
+        hold_moved = 1;
+        out = self->data;
+        nbytes = self->head;
+        reader->pos = self->head;
+        reader->cycle = self->cycle;
+    }
+
+    if (!nbytes) {
+        out = 0;
     } else {
         reader->state = ChannelState_Mapped;
     }
 
 Finalize:
     lock_release(&self->lock);
+    // Moving a hold may free space the writer is waiting for.
+    if (hold_moved)
+        condition_variable_notify_all(&self->notify_space_available);
     return (struct slice){ .beg = out, .end = out + nbytes };
 Overflow:
     reader->status = Channel_Error;
@@ -212,6 +226,7 @@ AdvanceToWriterHead:
     nbytes = 0;
     *pos = self->head;
     *cycle = self->cycle;
+    hold_moved = 1;
     goto Finalize;
 }
 
